@@ -18,8 +18,8 @@ import common
 from common import Evidence, Verdicts, run_tlc, stage_spec, MachineryError
 
 PROP = "C10"
-KEYS_SMALL = ["i:1", "s:c", "y:c", "i:3"]
-KEYS_ALL = ["i:1", "i:3", "i:-2", "r:2.5", "s:s1", "s:c", "c:c", "y:c", "y:ky", "s:"]
+KEYS_SMALL = ["i:1", "s:c", "y:c", "i:0"]
+KEYS_ALL = ["i:1", "i:3", "i:-2", "i:0", "r:2.5", "s:s1", "s:c", "c:c", "y:c", "y:ky", "s:"]
 VALS_SMALL = ["i:10", "s:v"]
 VALS_ALL = ["i:10", "s:v", "l:[1 2]", "y:w", "r:0.5", "i:0"]
 LIT = [["i:1", "i:10"], ["s:s1", "s:v"]]
@@ -127,19 +127,19 @@ def run(tier, seed):
     d = stage_spec("kg/DictAbs.tla", "kg/Dict.tla", "kg/DictTrace.tla")
     mod = os.path.join(d, "Dict.tla")
 
-    def cfg(name, keys, vals, maxops):
+    def cfg(name, keys, vals, maxops, focus=False):
         p = os.path.join(d, name)
         q = lambda xs: "{" + ", ".join('"%s"' % x for x in xs) + "}"   # noqa
         with open(p, "w") as f:
-            f.write("INIT Init\nNEXT Next\nCONSTANTS\n  Vars = {\"p\", \"r\"}\n  Keys = %s\n  Vals = %s\n  MaxOps = %d\n  NoPair = %s\n"
+            f.write("INIT Init\nNEXT Next\nCONSTANTS\n  Vars = {\"p\", \"r\"}\n  Keys = %s\n  Vals = %s\n  MaxOps = %d\n  NoPair = %s\n  Focus = %s\n"
                     "INVARIANT Good\nINVARIANT Emit\nCHECK_DEADLOCK FALSE\n" % (
                         q(keys), q(vals), maxops,
-                        q([f"{k}|{v}" for k in keys for v in vals if k[0] in "ir" and v[0] in "ir" and k[0] != v[0]] or ["-"])))
+                        q([f"{k}|{v}" for k in keys for v in vals if k[0] in "ir" and v[0] in "ir" and k[0] != v[0]] or ["-"]), "TRUE" if focus else "FALSE"))
         return p
     hists = []
     depth = 3 if not thorough else 4
     r1 = run_tlc(mod, cfg("tree.cfg", KEYS_SMALL if not thorough else KEYS_SMALL[:3], VALS_SMALL, depth), workers=1, timeout=7200)
-    ev.add_tlc(f"Dict.tla: all histories of {depth} operations (4 keys incl. string/symbol of the same text, 2 values)", r1,
+    ev.add_tlc(f"Dict.tla: all histories of {depth} operations (4 keys incl. 0 and a string/symbol of the same text, 2 values)", r1,
                "invariant Good: the generator's expectations satisfy DictAbs")
     if r1.violated:
         vd.violation({"what": f"design-level: Dict.tla violates {r1.violated}", "counterexample": r1.cex[:4000]})
@@ -148,8 +148,8 @@ def run(tier, seed):
     rnd.shuffle(tree)
     hists += tree[:(14000 if not thorough else 60000)]
     nsim = 2500 if not thorough else 30000
-    r2 = run_tlc(mod, cfg("sim.cfg", KEYS_ALL, VALS_ALL, 9), workers=1, simulate=f"num={nsim // 6}", depth=10, seed=seed + 5, timeout=7200)
-    ev.add_tlc(f"Dict.tla -simulate num={nsim // 6}, histories of 9 operations over 10 keys of every kind and 6 values "
+    r2 = run_tlc(mod, cfg("sim.cfg", KEYS_ALL, VALS_ALL, 9, focus=True), workers=1, simulate=f"num={nsim // 2}", depth=10, seed=seed + 5, timeout=7200)
+    ev.add_tlc(f"Dict.tla -simulate num={nsim // 2}, histories of 9 operations, each on two keys and two values drawn from 11 keys of every kind and 6 values "
                f"({nsim} of the emitted histories replayed)", r2)
     if r2.violated:
         vd.violation({"what": f"design-level: Dict.tla violates {r2.violated}", "counterexample": r2.cex[:4000]})
@@ -199,7 +199,7 @@ def run(tier, seed):
     ev.cov["distinct_nontrivial"] = sum(1 for t in traces if len({e["op"] for e in t["events"]}) >= 3)
     ev.cov["mismatching_histories"] = sum(len(v) for v in clusters.values())
     ev.cov["rule"] = (f"all histories of {depth} operations over 4 keys x 2 values x 2 variables (exhaustive tree of Dict.tla) and seeded "
-                      f"-simulate histories of 9 operations over 10 keys (integer literal/computed/negative, real, string, empty string, "
+                      f"-simulate histories of 9 operations over 11 keys (integer literal/computed/negative, real, string, empty string, "
                       f"character, symbol; string = character = symbol text) and 6 values; non-trivial = >= 3 different operations")
     ev.sample({"history": meta[0][1], "events": traces[0]["events"]})
     ev.cov["checker_cmd"] = "tlc Dict.tla ; tlc DictTrace.tla"
